@@ -289,6 +289,15 @@ def gen_merge_histories(rnd, count):
             yield Case(content, dict(kw), 'merge-history')
 
 
+def gen_tie_history(count):
+    """many symbols of one size in a row with automatic mask: exact ties of the minimal penalty occur for a few per cent of small
+    symbols — the lowest-numbered pattern must win whatever was encoded before, and the announced pattern must be the applied one"""
+    for i in range(count):
+        yield Case('ITEM-%05d' % (i * 7 % 100000), dict(micro=False, error='m', boost_error=False), 'tie-history')
+        if i % 3 == 0:
+            yield Case('TIE-%d' % i, dict(micro=False, error=('L', 'Q', 'H')[i % 9 // 3], boost_error=False), 'tie-history')
+
+
 def gen_minimal(rnd):
     """the shortest contents of every version / level / mode, with zero digits and zero bytes (leading 0x00 codewords)"""
     for v in ALL_VERSIONS:
